@@ -9,7 +9,7 @@
 (* disagreement; "not accepted" (the log is not consumed to its end) can   *)
 (* only mean a malformed log or a specification bug.                       *)
 (***************************************************************************)
-EXTENDS Integers, Sequences, TLC, Json, J_Prims, J_Build, J_Tables, J_C07, J_C15, J_Text, J_C17, J_C20, J_C04, J_C18, J_C06, J_C16, J_MapBodies, J_Objects, J_Misc, J_Chain
+EXTENDS Integers, Sequences, TLC, Json, J_Prims, J_Build, J_Tables, J_C07, J_C15, J_Text, J_C17, J_C20, J_C04, J_C18, J_C06, J_C16, J_MapBodies, J_Objects, J_Misc, J_Chain, J_WarmEdit
 
 CONSTANT TraceFile
 Log == ndJsonDeserialize(TraceFile)
@@ -61,6 +61,7 @@ Judge(e) ==
          [] e.op = "SignedProbe" -> JSignedProbe(e)
          [] e.op = "SignBuild" -> JSignBuild(e)
          [] e.op = "ConcurrentSign" -> JConcurrentSign(e)
+         [] e.op = "WarmEdit" -> JWarmEdit(e)
          [] e.op = "EncDec" -> JEncDec(e)
          [] e.op = "Blind" -> JBlind(e)
          [] e.op = "Concurrent" -> JConcurrent(e)
